@@ -496,5 +496,138 @@ def rule_g(ctx):
     rule_gate_scope(ctx)
 
 
+def _str_ast(node, text_names=()):
+    """AST expression whose value is a str whatever the operands are (bytes do not count: __str__ must return str)."""
+    if isinstance(node, ast.Constant):
+        return isinstance(node.value, str)
+    if isinstance(node, ast.JoinedStr):
+        return True
+    if isinstance(node, ast.Name):
+        return node.id in text_names
+    if isinstance(node, ast.Call):
+        if isinstance(node.func, ast.Name) and node.func.id in ('str', 'repr', 'format', 'ascii'):
+            return True
+        if isinstance(node.func, ast.Attribute) and node.func.attr in ('decode', 'format', 'join', 'hex', '__str__',
+                                                                       '__repr__', 'strip', 'lower', 'upper'):
+            return True
+    if isinstance(node, ast.BinOp) and isinstance(node.op, ast.Mod):
+        return isinstance(node.left, ast.Constant) and isinstance(node.left.value, str)
+    if isinstance(node, ast.BinOp) and isinstance(node.op, ast.Add):
+        return _str_ast(node.left, text_names) and _str_ast(node.right, text_names)
+    if isinstance(node, ast.IfExp):
+        return _str_ast(node.body, text_names) and _str_ast(node.orelse, text_names)
+    if isinstance(node, ast.BoolOp):
+        return all(_str_ast(v, text_names) for v in node.values)
+    return False
+
+
+def rule_exception_text(ctx):
+    """C12.k  str() of a library exception cannot fail.  The receive loop builds its ERROR reply inside the `except`
+    clause (send_error -> exception_to_error_frame -> str(exception)); a __str__ that returns something other than a
+    str raises TypeError there, outside the per-frame try: the receiver task dies without the close sequence and the
+    connection is wedged.  Every __str__ / __repr__ of a library exception class returns an expression that is a str
+    whatever its operands are, or a constructor argument (self.args[i], or an attribute __init__ fills from a
+    parameter) that every construction of the class - and of each subclass that inherits the method - passes as text
+    (a text expression, or a parameter annotated str)."""
+    rep = ctx.report
+    repo = ctx.repo
+    from ..astutil import returned_exprs
+
+    def is_exception(k):
+        text = ' '.join(ast.unparse(b) for kk in k.mro() for b in kk.node.bases)
+        return any(w in text for w in ('Exception', 'Error'))
+
+    classes = [k for k in repo.all_classes() if k.module.name.startswith(('rsocket.', 'reactivestreams.')) and
+               not k.module.name.startswith('rsocket.cli') and is_exception(k)]
+    rep.require('C12.k', 'library exception classes', len(classes), 12)
+
+    def sites(k):
+        """Constructions K(...) of k in the library."""
+        out = []
+        for fn in repo.all_functions():
+            if not fn.module.name.startswith(('rsocket.', 'reactivestreams.')):
+                continue
+            for n in walk_local(fn.node):
+                if isinstance(n, ast.Call) and isinstance(n.func, (ast.Name, ast.Attribute)):
+                    name = n.func.id if isinstance(n.func, ast.Name) else n.func.attr
+                    if name == k.name:
+                        t = repo.resolve_expr(fn.module, n.func)
+                        if t is k:
+                            out.append((fn, n))
+        return out
+
+    def arg_is_text(fn, e):
+        names = set()
+        a = fn.node.args
+        for arg in a.posonlyargs + a.args + a.kwonlyargs:
+            if arg.annotation is not None and ast.unparse(arg.annotation) == 'str':
+                names.add(arg.arg)
+        return _str_ast(e, names)
+
+    n = 0
+    for k in classes:
+        for name in ('__str__', '__repr__'):
+            f = k.methods.get(name)
+            if f is None:
+                continue
+            n += 1
+            users = [c for c in classes if k in c.mro() and c.lookup(name) is f]
+            bad = []
+            for r in returned_exprs(f.node):
+                if _str_ast(r):
+                    continue
+                # the parts that are not evidently text
+                parts = []
+
+                def collect(e):
+                    if isinstance(e, ast.IfExp):
+                        collect(e.body), collect(e.orelse)
+                    elif isinstance(e, ast.BoolOp):
+                        for v in e.values:
+                            collect(v)
+                    elif not _str_ast(e):
+                        parts.append(e)
+                collect(r)
+                for e in parts:
+                    idx = None
+                    if isinstance(e, ast.Subscript) and ast.unparse(e.value) == 'self.args' and \
+                            isinstance(e.slice, ast.Constant) and isinstance(e.slice.value, int):
+                        idx = e.slice.value
+                    elif isinstance(e, ast.Attribute) and isinstance(e.value, ast.Name) and e.value.id == 'self':
+                        idx = ('attr', e.attr)
+                    if idx is None:
+                        bad.append('%s is not a str for every operand' % ast.unparse(e))
+                        continue
+                    for c in users:
+                        pos = idx
+                        if isinstance(idx, tuple):
+                            init = c.lookup('__init__')
+                            pos = None
+                            if init is not None:
+                                ps_ = [x for x in init.params() if x != 'self']
+                                for st in walk_local(init.node):
+                                    if isinstance(st, ast.Assign) and ast.unparse(st.targets[0]) == 'self.' + idx[1] \
+                                            and isinstance(st.value, ast.Name) and st.value.id in ps_:
+                                        pos = ps_.index(st.value.id)
+                            if pos is None:
+                                bad.append('self.%s of %s is not a constructor argument' % (idx[1], c.name))
+                                continue
+                        for fn, call in sites(c):
+                            if len(call.args) > pos:
+                                if not arg_is_text(fn, call.args[pos]):
+                                    bad.append('%s(%s) in %s passes %s, which is not text' % (
+                                        c.name, ', '.join(ast.unparse(x) for x in call.args), fn.name,
+                                        ast.unparse(call.args[pos])))
+                            elif not isinstance(idx, tuple):
+                                guarded = isinstance(r, ast.IfExp) and 'self.args' in ast.unparse(r.test)
+                                if not guarded:
+                                    bad.append('%s() in %s passes no argument %d' % (c.name, fn.name, pos))
+            rep.add('C12.k', '%s.%s / returns text for every instance' % (k.name, name), f, not bad,
+                    'every returned expression is a str by construction' if not bad else
+                    '%s: str(exception) raises TypeError inside the receive loop\'s except clause and the receiver '
+                    'task dies' % '; '.join(sorted(set(bad))[:4]))
+    rep.require('C12.k', '__str__ / __repr__ definitions of library exceptions', n, 2)
+
+
 RULES = [('C12.a', rule_a), ('C12.b', rule_b), ('C12.c', rule_c), ('C12.d', rule_d), ('C12.e', rule_e),
-         ('C12.f', rule_f), ('C14.f', rule_g), ('C12.b', rule_h), ('C13.d', rule_i), ('C12.g', rule_j), ('C12.h', rule_k), ('C12.i', rule_l), ('C12.j', rule_m)]
+         ('C12.f', rule_f), ('C14.f', rule_g), ('C12.b', rule_h), ('C13.d', rule_i), ('C12.g', rule_j), ('C12.h', rule_k), ('C12.i', rule_l), ('C12.j', rule_m), ('C12.k', rule_exception_text)]
